@@ -7,11 +7,11 @@ from fractions import Fraction
 
 import numpy as np
 
-from . import core, gem, trajsc
+from . import core, gem, trajsc, translate
 from .core import Outcome, PropertySpec
 
 PID = 'C01'
-MODULES = ['GProofs.C01']
+MODULES = ['GProofs.C01', 'GProofs.C01Gen']
 
 ORDERS = [
     [('P', 0), ('D', 0), ('C', 0), ('R', 0), ('P', 0), ('B', 0), ('D', 0), ('P', 0)],
@@ -253,6 +253,7 @@ SPEC = PropertySpec(
     modules=MODULES,
     run=run,
     replay=replay,
+    gen=translate.gen_for('FormulasC01'),
     rule=('random trajectories of 1-8 frames x 1-4 atoms with dyadic coordinates k/64 in [-3,3] (independent, or random walks with '
           'steps up to 40/64 so that faces are crossed repeatedly) on pool lattices (cubic ... strongly triclinic, 40% re-oriented by an '
           'exact signed axis permutation), three different read orders of positions / displacements / cumulative displacements / '
